@@ -1088,6 +1088,32 @@ class Idioms3(ast.NodeTransformer):
                 new = any_ if want_any else ast.UnaryOp(op=ast.Not(),
                                                         operand=any_)
                 return ast.fix_missing_locations(ast.copy_location(new, e))
+        # d.keys().isdisjoint(("a", "b")) / set(d).isdisjoint([...])
+        if isinstance(e0, ast.Call) and isinstance(
+                e0.func, ast.Attribute) and e0.func.attr == "isdisjoint" \
+                and len(e0.args) == 1 and isinstance(
+                    e0.args[0], (ast.Tuple, ast.List, ast.Set)) and \
+                e0.args[0].elts and all(isinstance(x, ast.Constant)
+                                        for x in e0.args[0].elts):
+            k = e0.func.value
+            d = None
+            if isinstance(k, ast.Call) and isinstance(
+                    k.func, ast.Attribute) and k.func.attr == "keys" and \
+                    not k.args:
+                d = k.func.value
+            elif isinstance(k, ast.Call) and norm(k.func) in (
+                    "set", "frozenset") and len(k.args) == 1:
+                d = k.args[0]
+            if isinstance(d, (ast.Name, ast.Attribute)):
+                tests = [ast.Compare(left=x, ops=[ast.In()],
+                                     comparators=[clone(d)])
+                         for x in sorted(e0.args[0].elts,
+                                         key=lambda c: str(c.value))]
+                any_ = tests[0] if len(tests) == 1 else ast.BoolOp(
+                    op=ast.Or(), values=tests)
+                new = any_ if neg_ else ast.UnaryOp(op=ast.Not(),
+                                                    operand=any_)
+                return ast.fix_missing_locations(ast.copy_location(new, e))
         if not (isinstance(e, ast.BinOp) and isinstance(e.op, ast.BitAnd)):
             return e
         for keys, lits in ((e.left, e.right), (e.right, e.left)):
